@@ -883,6 +883,10 @@ class Reader:
             m = re.match(r"^if (\w+)$", s)
             if m and m.group(1) in holds:
                 continue
+            # range validation of a value just read: `if (i == (int) E::A || i == (int) E::B) assign; else error`
+            m = re.match(r"^if (\w+) == \(int\) ?[\w:]+( \|\| (\w+) == \(int\) ?[\w:]+)*$", s)
+            if m and m.group(1) in holds and (m.group(3) is None or m.group(3) == m.group(1)):
+                continue
             # conditional constant side effect on another member: `if (this->X) this->Y = false;`
             m = re.match(r"^if this->(\w+)$", s)
             if m and m.group(1) in sinks:
